@@ -16,6 +16,14 @@ import hail as hl  # noqa: E402
 from hail import ir  # noqa: E402
 from hail.expr.types import tarray, tbool, tint32, tint64  # noqa: E402
 
+# The aggregator registry is filled at import time from dtype strings; the dtype-string parser (parsimonious) is
+# absent here, so the one signature the builder uses is re-registered through the real register_aggregator with
+# real type objects (same signature as hail/ir/register_aggregators.py: Sum () (int64) -> int64).
+from hail.ir import ir as _irmod  # noqa: E402
+
+_irmod._aggregator_registry['Sum'] = []
+_irmod.register_aggregator('Sum', (), (tint64,), tint64)
+
 # result types: i int32, b bool, a array<int32>, s stream<int32>, t struct{a:int32,b:int32}, l int64
 # kinds: name -> (result type, [operand slots]); a slot is (type, binds) where binds = names bound in it
 #   ctx of a slot: 'e' same as parent, 'A' aggregation scope of the parent (seq-op argument, AggFilter cond)
@@ -37,24 +45,24 @@ FAMILIES = {
     # value family: everything in the statement's quantifier
     'value': dict(kinds=['SUB', 'LT', 'IF', 'LET', 'MKS', 'GETA', 'GETB', 'MKA', 'TOS', 'TOA', 'SMAP', 'SFILT',
                          'FOLD', 'ALEN'], roots='ibat', if_types='ia', let_types='ia',
-                  leaves={'i': ['x', 'c'], 'b': ['p'], 'a': ['A']}),
+                  leaves={'i': ['x', 'c'], 'b': ['p'], 'a': ['A'], 's': ['SA']}),
     # smaller value family for the quick tier (no struct round trip through If/Let of arrays)
     'value-core': dict(kinds=['SUB', 'LT', 'IF', 'LET', 'MKS', 'GETA', 'MKA', 'TOS', 'TOA', 'SMAP', 'SFILT', 'FOLD'],
                        roots='iat', if_types='i', let_types='i',
-                       leaves={'i': ['x', 'c'], 'b': ['p'], 'a': ['A']}),
+                       leaves={'i': ['x', 'c'], 'b': ['p'], 'a': ['A'], 's': ['SA']}),
     # five-node family: arithmetic, let and fold lambdas only
     'lam5': dict(kinds=['SUB', 'LET', 'TOS', 'FOLD'], roots='i', if_types='i', let_types='i',
-                 leaves={'i': ['x'], 'a': ['A']}),
+                 leaves={'i': ['x'], 'a': ['A'], 's': ['SA']}),
     # strict family: no streams, ArrayRef may fail -> error behaviour must be equal as well
     'strict': dict(kinds=['SUB', 'LT', 'IF', 'LET', 'MKS', 'GETA', 'MKA', 'AREF', 'ALEN'], roots='iat',
-                   if_types='ia', let_types='ia', leaves={'i': ['x', 'c'], 'b': ['p'], 'a': ['A']}),
+                   if_types='ia', let_types='ia', leaves={'i': ['x', 'c'], 'b': ['p'], 'a': ['A'], 's': ['SA']}),
     # aggregation family: StreamAgg nests anywhere; Let vs AggLet placement is decided by evaluation
     'agg': dict(kinds=['LSUB', 'LLT', 'LETL', 'IFL', 'TOSL', 'SMAPL', 'SUM', 'AGGF', 'SAGG'], roots='l',
-                if_types='', let_types='', leaves={'b': ['p'], 'l': ['y', 'd'], 'B': ['B']}),
+                if_types='', let_types='', leaves={'b': ['p'], 'l': ['y', 'd'], 'B': ['B'], 'S': ['SB']}),
     'scan': dict(kinds=['LSUB', 'LLT', 'LETL', 'IFL', 'TOSL', 'TOAL', 'SMAPL', 'SCAN', 'SCANF', 'SSCAN'], roots='Bl',
-                 if_types='', let_types='', leaves={'b': ['p'], 'l': ['y', 'd'], 'B': ['B']}),
+                 if_types='', let_types='', leaves={'b': ['p'], 'l': ['y', 'd'], 'B': ['B'], 'S': ['SB']}),
 }
-LEAF_TYPES = {'x': 'i', 'c': 'i', 'p': 'b', 'A': 'a', 'y': 'l', 'd': 'l', 'B': 'B'}
+LEAF_TYPES = {'x': 'i', 'c': 'i', 'p': 'b', 'A': 'a', 'y': 'l', 'd': 'l', 'B': 'B', 'SA': 's', 'SB': 'S'}
 
 
 class Node:
@@ -280,6 +288,8 @@ def to_ir(root):
         if isinstance(n, Var):
             return var(n.name, n.typ)
         if isinstance(n, Leaf):
+            if n.name in ('SA', 'SB'):      # pooled stream leaf: a fresh ToStream over the free array (streams are
+                return ir.ToStream(leaves[n.name[1]])     # not values and are never shared)
             return leaves[n.name]
         if id(n) in memo:
             return memo[id(n)]
